@@ -53,7 +53,9 @@ Mutate(i) == /\ i \in 1..Len(insts)
              /\ cells' = [cells EXCEPT ![insts[i].cid] = Append(@, "c")]
              /\ rret' = [op |-> "Mutate", ok |-> TRUE, impl |-> insts[i].impl]
              /\ UNCHANGED <<reg, insts, next>>
-RNext == \/ \E n \in Names, k \in DOMAIN Kinds : Cardinality(DOMAIN reg) < MaxReg /\ Register(n, k)
+\* registration is also attempted under the names already taken from the start (both built-in profiles, the default alias)
+RegNames == Names \cup {P1Name, P2Name, ""}
+RNext == \/ \E n \in RegNames, k \in DOMAIN Kinds : Cardinality(DOMAIN reg) < MaxReg /\ Register(n, k)
          \/ \E n \in Names \cup {P1Name, P2Name, "http://UNKNOWN"} : NewClaims(n)
          \/ \E d \in Docs : DecodeJ(d)
          \/ \E t \in Toks : DecodeC(t)
